@@ -537,6 +537,29 @@ fn cow_twins(stats: &mut Stats, rng: &mut Rng64) {
             fail("accessor", format!("{name} variant disagrees with the plain slice {} on an accessor/comparison/hash", hex(m)));
         }
     }
+    // out-of-range arguments: each variant either panics or is left unchanged (whether it panics is not demanded to agree)
+    for k in [1usize, 2, 17] {
+        let at = m.len() + k;
+        for (name, c) in [("borrowed", &t), ("owned", &s)] {
+            for op in ["truncate", "split_to", "split_off", "advance"] {
+                let mut v = c.clone();
+                let r = std::panic::catch_unwind(std::panic::AssertUnwindSafe(|| {
+                    match op {
+                        "truncate" => v.truncate(at),
+                        "split_to" => drop(v.split_to(at)),
+                        "split_off" => drop(v.split_off(at)),
+                        _ => v.advance(at),
+                    }
+                    v
+                }));
+                if let Ok(after) = r {
+                    if after.as_ref() != m {
+                        fail(&format!("out-of-range|{op}|{name}"), format!("{name} CowBytes {} : {op}({at}) with length {} neither panicked nor left the value unchanged (now {})", hex(m), m.len(), hex(after.as_ref())));
+                    }
+                }
+            }
+        }
+    }
     // io::Read is not an accessor the property constrains; only twin agreement is checked
     {
         let (mut r1, mut r2) = (t.clone(), s.clone());
